@@ -50,6 +50,20 @@ impl From<u32> for Ttl {
     }
 }
 
+impl Ttl {
+    /// Wraps the raw 32-bit TTL field of an OPT pseudo-RR. That field
+    /// does not hold a TTL at all: [RFC 6891 § 6.1.3] packs the
+    /// extended RCODE, the EDNS version, and flags into it, so it must
+    /// not be subjected to the [RFC 2181 § 8] interpretation of the
+    /// most significant bit.
+    ///
+    /// [RFC 2181 § 8]: https://datatracker.ietf.org/doc/html/rfc2181#section-8
+    /// [RFC 6891 § 6.1.3]: https://datatracker.ietf.org/doc/html/rfc6891#section-6.1.3
+    pub(crate) fn from_opt_ttl_field(raw: u32) -> Self {
+        Self(raw)
+    }
+}
+
 impl From<Ttl> for u32 {
     fn from(ttl: Ttl) -> Self {
         ttl.0
